@@ -170,6 +170,8 @@ def _encode(inp: Dict[str, Any]):
 
 
 def run(ctx: Ctx):
+    from ..translate import gen
+    gen.regenerate(ctx, ["Guards", "LoopCensus"])
     leanproj.check_theorems(ctx, MODULE, THEOREMS)
     cases = gen_cases(ctx)
     results = mdh.pmap(_run_case, cases, timeout=1800)
